@@ -37,7 +37,7 @@ SCHEMES = ['http', 'https', 'ftp', 'ws', 'foo', 'git+ssh', 'http', 'http']
 HOSTS = ['a', 'h.x', 'example.com', '10.0.0.1', 'a-b.c0']
 USERINFO = ['', '', '', 'u@', 'u:p@', "us.er:p!w@"]
 PORTS = ['', '', '', ':8080', ':81', ':65535', ':80', ':0', ':0443', ':']
-QUERIES = ['y', 'k=v', 'k=v&z', 'k=1&k=2', 'a/b?c=d', 'q=@:x', 'x&y&x']
+QUERIES = ['y', 'k=v', 'k=v&z', 'k=1&k=2', 'a/b?c=d', 'q=@:x', 'x&y&x', 'b=1&a=2&b=3']
 FRAGS = ['s', 'sec-2', 'a/b?c', 'x:y', 'f=1&g']
 
 
